@@ -1,5 +1,14 @@
 import Driver.Engine
 import Driver.Probe
+import Driver.Rows
+import Driver.HashMeta
+import Driver.BTree
+import Driver.Arr
+import Driver.Pool
+import Driver.Columns
+import Driver.HashTable
+import Driver.Sort
+import Driver.Seg
 /-!
   momo_model: reads operation lines on stdin, prints one output line per operation.
   First line: `model <name> key=value …` selects the model. Lines starting with `#` are echoed.
@@ -7,7 +16,16 @@ import Driver.Probe
 open Driver
 
 def engines : List (String × Engine) := [
-  ("probe", Driver.Probe.engine)
+  ("probe", Driver.Probe.engine),
+  ("rows", Driver.Rows.engine),
+  ("hashmeta", Driver.HashMeta.engine),
+  ("btree", Driver.BTree.engine),
+  ("arr", Driver.Arr.engine),
+  ("pool", Driver.Pool.engine),
+  ("columns", Driver.Columns.engine),
+  ("hashtable", Driver.HashTable.engine),
+  ("sort", Driver.Sort.engine),
+  ("seg", Driver.Seg.engine)
 ]
 
 def tokens (line : String) : List String :=
